@@ -21,7 +21,7 @@ Cmd1s(names, bits)  == { <<"cmd", c, v>> : c \in names, v \in Single(bits) }
 \* A: standard event group + SRE + queue
 OpsA == SetOps({"ESR", "ESE"}, {0, 6}) \cup BitOps({"ESR", "ESE"}, {0, 6}) \cup SetOps({"SRE"}, {2, 5, 6})
         \cup Cmd0({"*CLS", "*ESR?", "*OPC", "*STB?", "*ESE?", "*SRE?"}) \cup Cmd1s({"*ESE"}, {0, 6}) \cup Cmd1s({"*SRE"}, {2, 5, 6})
-        \cup PushOps({0 - 800, 1}) \cup QueueOps \cup {<<"setbits", "STB", {6}>>, <<"clrbits", "STB", {6}>>}
+        \cup PushOps({0 - 800, 1, 0}) \cup QueueOps \cup {<<"setbits", "STB", {6}>>, <<"clrbits", "STB", {6}>>}
 \* B: questionable group with condition register + SRE + a little of the standard event group
 OpsB == SetOps({"QUES", "QUESE", "QUESC"}, {0, 9}) \cup BitOps({"QUES", "QUESC"}, {0, 9}) \cup SetOps({"SRE"}, {3, 6}) \cup SetOps({"ESR", "ESE"}, {0})
         \cup Cmd0({"*CLS", "STAT:QUES?", "STAT:PRES", "STAT:QUES:COND?", "STAT:QUES:ENAB?", "*ESR?"}) \cup Cmd1s({"STAT:QUES:ENAB"}, {0, 9})
